@@ -49,11 +49,12 @@ fn rand_vars(r: &mut Rng, n: usize) -> Vec<String> {
 }
 fn rand_dual(r: &mut Rng) -> Dual {
     let n = r.below(5) as usize;
-    Dual::try_new(rand_bits(r), rand_vars(r, n), (0..n).map(|_| rand_bits(r)).collect()).unwrap()
+    // (now and then a sensitivity that is exactly zero, or -0.0: the variable is still listed and must come back)
+    Dual::try_new(rand_bits(r), rand_vars(r, n), (0..n).map(|_| match r.below(8) { 0 => 0.0, 1 => -0.0, _ => rand_bits(r) }).collect()).unwrap()
 }
 fn rand_dual2(r: &mut Rng) -> Dual2 {
     let n = r.below(4) as usize;
-    Dual2::try_new(rand_bits(r), rand_vars(r, n), (0..n).map(|_| rand_bits(r)).collect(), (0..n * n).map(|_| rand_bits(r)).collect()).unwrap()
+    Dual2::try_new(rand_bits(r), rand_vars(r, n), (0..n).map(|_| match r.below(8) { 0 => 0.0, 1 => -0.0, _ => rand_bits(r) }).collect(), (0..n * n).map(|_| rand_bits(r)).collect()).unwrap()
 }
 fn rand_cal(r: &mut Rng) -> Cal {
     let mask: Vec<u8> = (0..7u8).filter(|_| r.chance(0.3)).collect();
@@ -807,6 +808,16 @@ pub fn ctors(out: &str) {
                                "o": match &res { Outcome::Ok(_) => "ok", Outcome::Panic(_) => "panic" }}));
             }
         }
+    }
+    // `PPSpline::new` asserts a non-decreasing knot sequence: a decrease at ANY position (the last pair included) is refused
+    for (pi, t) in [vec![0.0, 0.0, 0.0, 1.0, 2.0, 3.0, 3.0, 3.0], vec![0.0, 0.0, 0.0, 1.0, 2.0, 3.0, 3.0, 2.5], vec![0.0, 0.0, 0.0, 2.0, 1.0, 3.0, 3.0, 3.0],
+                    vec![0.5, 0.0, 0.0, 1.0, 2.0, 3.0, 3.0, 3.0], vec![0.0, 0.0, 0.0, 1.0, 2.0, 3.0, 2.0, 3.0], vec![0.0, 1.0], vec![1.0, 0.0]].iter().enumerate() {
+        let sorted = t.windows(2).all(|w| w[1] >= w[0]);
+        let k = if t.len() > 3 { 3 } else { 1 };
+        let res = guard(|| PPSpline::<f64>::new(k, t.clone(), None));
+        o.emit(&json!({"key": format!("ctor/PPSpline::new/{}", pi), "op":"ctor", "fn":"PPSpline::new", "sorted": sorted, "o": match &res { Outcome::Ok(_) => "ok", Outcome::Panic(_) => "panic" }}));
+        let res = guard(|| rateslib::verif::spline_py::f64_new(k, t.clone(), None));
+        o.emit(&json!({"key": format!("ctor/PPSplineF64.__new__/{}", pi), "op":"ctor", "fn":"PPSpline::new", "sorted": sorted, "o": match &res { Outcome::Ok(_) => "ok", Outcome::Panic(_) => "panic" }}));
     }
     // the quote constructor builds the pair itself: the same grid through `FXRate::try_new` and through the Python-facing `FXRate(...)`
     for (a, b) in [("usd", "eur"), ("usd", "usd"), ("USD", "usd"), ("us", "eur"), ("usd", "euro"), ("eur", "EUR"), ("Gbp", "gBP")] {
